@@ -429,7 +429,13 @@ void ctx_touch(const void* addr)
     log_event(K_CTX, foreign ? 1 : 0, 0);
 }
 
-LexAnswer lex(int64_t pos, int line, int col, bool verbose, int64_t end_pos)
+void lexer_state_clobbered()
+{
+    RtGuard g;
+    if (OpRec* o = cur()) ++o->lexer_state_clobbered;
+}
+
+LexAnswer lex(int64_t pos, int line, int col, bool verbose, int64_t end_pos, int64_t inst_calls, int64_t inst_last)
 {
     RtGuard g;
     OpRec* o = cur();
@@ -445,7 +451,7 @@ LexAnswer lex(int64_t pos, int line, int col, bool verbose, int64_t end_pos)
                 if (a.idx >= 0 && a.len >= 1 && pos + a.len <= o->buf_len) ans = a;
                 break;
             }
-    o->lexes.push_back(OpRec::Lex{ pos, line, col, ans.idx, ans.len, g_seq, verbose ? 1 : 0, end_pos });
+    o->lexes.push_back(OpRec::Lex{ pos, line, col, ans.idx, ans.len, g_seq, verbose ? 1 : 0, end_pos, inst_calls, inst_last });
     log_event(K_LEX, pos, (int64_t(ans.idx) << 32) | (ans.len & 0xffffffff));
     return ans;
 }
